@@ -1,3 +1,18 @@
+//! vh-storage: C10 (storage transactions), C13 (block Merkle accumulator),
+//! C14 (sparse Merkle roots) on the real fuel-core-storage code.
+mod c10;
+mod c13;
+mod c14;
+mod kv;
+
+use mcx::*;
+
 fn main() {
-    mcx::machinery_failure("not built yet");
+    let cli = Cli::parse();
+    match cli.property.as_str() {
+        "C10" => c10::run(&cli),
+        "C13" => c13::run(&cli),
+        "C14" => c14::run(&cli),
+        other => machinery_failure(&format!("vh-storage does not serve {other}")),
+    }
 }
